@@ -7,12 +7,10 @@
      mutate / delete        write batch, acknowledgement, THEN the recompute request      (ACall)
      add_nodes / delete_*   write batch only; synchronise_room requests the recompute
                             after the data (AIngest ... ACompute)
-     mutation_stream        the recompute request is sent when the input channel closes; it goes
-                            straight to the writer while the last mutations still travel
-                            reader -> authorisation actor -> writer, so the writer may process
-                            it before some of them (AStream os early: early_i = mutation i was
-                            committed in a batch before the one that holds the recompute; the
-                            schedule is an explicit oracle argument, observed by the harness) *)
+     mutation_stream        the replies of the stream go through the stream task, which sends the
+                            recompute request once the input channel is closed AND every reply
+                            (sent after the COMMIT of its batch) has been forwarded (a874354):
+                            the writes, then the recompute (AStream os) *)
 From DV Require Export DailyLog.
 Open Scope Z_scope.
 
@@ -21,13 +19,7 @@ Inductive api :=
 | ACall (o : op)
 | AIngest (o : op)
 | ACompute
-| AStream (os : list op) (early : list bool).
-
-Fixpoint select {A} (m : list bool) (l : list A) : list A :=
-  match m, l with
-  | b :: m', x :: l' => if b then x :: select m' l' else select m' l'
-  | _, _ => []
-  end.
+| AStream (os : list op).
 
 (* the writer batches an API call amounts to when calls are issued one after the other *)
 Definition batches_of (a : api) : list (list msg) :=
@@ -36,12 +28,11 @@ Definition batches_of (a : api) : list (list msg) :=
   | ACall o => [[MOp o]; [MCompute]]
   | AIngest o => [[MOp o]]
   | ACompute => [[MCompute]]
-  | AStream os early =>
-      map (fun o => [MOp o]) (select early os) ++ [[MCompute]] ++ map (fun o => [MOp o]) (select (map negb early) os)
+  | AStream os => map (fun o => [MOp o]) os ++ [[MCompute]]
   end.
 (* does the call promise that everything committed so far has been announced when it is over? *)
 Definition promises (a : api) : bool :=
-  match a with ACall _ | ACompute | AStream _ _ => true | _ => false end.
+  match a with ACall _ | ACompute | AStream _ => true | _ => false end.
 
 (* ---- what can be observed: per write the keys whose content changed, per recompute the keys announced ---- *)
 Inductive tev := TW (ks : list lkey) | TE (ks : list lkey) | TQ.
